@@ -4,6 +4,7 @@ import (
 	"fmt"
 	"go/token"
 	"go/types"
+	"strings"
 
 	"golang.org/x/tools/go/ssa"
 
@@ -22,6 +23,7 @@ var (
 func checkC10(c *chk.Ctx) {
 	h := newH(c)
 	c.Decided = []string{
+		"R10h the list of segment base offsets read from the WAL directory is sorted numerically before it is used positionally (first / last segment at recovery): directory order is by file name, not by offset",
 		"R10a lengths read from the file are range-checked in an overflow-safe form before any sum containing them is compared",
 		"R10b the chained CRC is compared before a v2 record header is accepted; recovery indexes an entry only after that validation; the v2 index is checksummed before use",
 		"R10c recovery leaves the scan silently on a damaged entry only when that entry's offset is above the commit offset",
@@ -40,6 +42,7 @@ func checkC10(c *chk.Ctx) {
 	ruleR10d(h)
 	ruleR10f(h)
 	ruleTruncateClearsTail(h, "R10g")
+	ruleSegmentListSorted(h, "R10h")
 }
 
 func codecImplMethods(h *H, rule, method string) []*ssa.Function {
@@ -507,4 +510,122 @@ func provType(v ssa.Value) *types.Named {
 func isNilOrZero(v ssa.Value) bool {
 	c, ok := v.(*ssa.Const)
 	return ok && (c.IsNil() || c.Value == nil || c.Value.String() == "0")
+}
+
+// ruleSegmentListSorted (shared with C09): recovery picks the first and the last element of
+// the list of segment base offsets. os.ReadDir orders by file name ("16" < "8"), so the
+// list must be sorted numerically, either by the function that builds it or by the
+// consumer before it indexes it.
+func ruleSegmentListSorted(h *H, rule string) {
+	h.Rule(rule, "K1", "every []int64 built from os.ReadDir in server/wal is sorted (slices.Sort / sort.*) before it is returned, or before a consumer indexes it", 1)
+	isReadDir := func(c *ssa.CallCommon) bool {
+		f := c.StaticCallee()
+		return f != nil && f.Pkg != nil && f.Pkg.Pkg.Path() == "os" && (f.Name() == "ReadDir" || f.Name() == "Readdir" || f.Name() == "Readdirnames")
+	}
+	isSort := func(c *ssa.CallCommon) bool {
+		f := c.StaticCallee()
+		if f == nil {
+			return false
+		}
+		o := f
+		if f.Origin() != nil {
+			o = f.Origin()
+		}
+		if o.Pkg == nil {
+			return false
+		}
+		pk := o.Pkg.Pkg.Path()
+		return (pk == "slices" || pk == "sort" || strings.HasSuffix(pk, "/slices")) && (strings.HasPrefix(o.Name(), "Sort") || o.Name() == "Slice" || o.Name() == "SliceStable" || o.Name() == "Ints")
+	}
+	sameSlice := func(a, b ssa.Value) bool {
+		ca, cb := ir.Canon(a), ir.Canon(b)
+		if ca == cb {
+			return true
+		}
+		ua, oka := ca.(*ssa.UnOp)
+		ub, okb := cb.(*ssa.UnOp)
+		return oka && okb && ua.Op == token.MUL && ub.Op == token.MUL && ua.X == ub.X
+	}
+	n := 0
+	for _, fn := range h.P.Funcs {
+		if fn.Parent() != nil || ir.RelPkg(ir.PkgPathOf(fn)) != "server/wal" {
+			continue
+		}
+		res := fn.Signature.Results()
+		if res.Len() == 0 || res.At(0).Type().String() != "[]int64" {
+			continue
+		}
+		direct := false
+		ir.Instrs(fn, func(in ssa.Instruction) {
+			if c := ir.CallOf(in); c != nil && isReadDir(c) {
+				direct = true
+			}
+		})
+		if !direct {
+			continue
+		}
+		n++
+		h.Fn(ir.FuncName(fn))
+		// (a) sorted before every successful return
+		sortedHere := true
+		var at ssa.Instruction
+		ir.Instrs(fn, func(in ssa.Instruction) {
+			ret, ok := in.(*ssa.Return)
+			if !ok || in.Block() == fn.Recover || !sortedHere {
+				return
+			}
+			vals := ir.ReturnValues(ret)
+			if isNilConst(ir.Canon(vals[0])) || !mayReturnNilError(ret) {
+				return
+			}
+			isSortOfResult := func(x ssa.Instruction) bool {
+				c := ir.CallOf(x)
+				return c != nil && isSort(c) && len(c.Args) > 0 && sameSlice(c.Args[0], vals[0])
+			}
+			if r, _ := ir.Reach(ir.Search{Fn: fn, Barrier: isSortOfResult}, ir.Is(in)); r {
+				sortedHere = false
+				at = in
+			}
+		})
+		if sortedHere {
+			h.OK(rule, "segment list built by "+ir.FuncName(fn), h.P.Pos(fn.Pos()), "sorted before every successful return")
+			continue
+		}
+		// (b) otherwise every consumer sorts before indexing
+		okAll, why := true, ""
+		sites := ir.StaticCallSites(fn)
+		if len(sites) == 0 {
+			okAll, why = false, "its callers are not all known"
+		}
+		for _, cs := range sites {
+			v, _ := cs.(ssa.Value)
+			if v == nil {
+				continue
+			}
+			caller := cs.Parent()
+			ir.Instrs(caller, func(x ssa.Instruction) {
+				ia, ok := x.(*ssa.IndexAddr)
+				if !ok || !okAll {
+					return
+				}
+				if !ir.DependsOn(ia.X, func(y ssa.Value) bool { return y == v }) {
+					return
+				}
+				sorted := false
+				ir.Instrs(caller, func(y ssa.Instruction) {
+					if c := ir.CallOf(y); c != nil && isSort(c) && len(c.Args) > 0 && sameSlice(c.Args[0], ia.X) && ir.Dominates(y, x) {
+						sorted = true
+					}
+				})
+				if !sorted {
+					okAll, why = false, ir.FuncName(caller)+" indexes the list at "+h.pos(x)+" without sorting it"
+				}
+			})
+		}
+		h.Verdict(okAll, rule, "segment list built by "+ir.FuncName(fn), h.pos(at), "every consumer sorts before indexing",
+			"the list of segment base offsets is returned in directory (file name) order and "+why+": with base offsets of different widths (8, 16) recovery takes a middle segment for the last one and the reopened log silently lacks entries")
+	}
+	if n == 0 {
+		h.Anchor(rule, "the function of server/wal building a []int64 from os.ReadDir")
+	}
 }
